@@ -197,3 +197,66 @@ Proof.
     + do 5 eexists. split; [vm_compute; reflexivity|]. split; [vm_compute; reflexivity|]. split; [vm_compute; reflexivity|].
       left. vm_compute. reflexivity.
 Qed.
+
+(* ---------- Top-K: same report up to the choice among entries tied at the smallest count ---------- *)
+From GX.Proofs Require TopKInv TopKRedisInv TopKPair.
+
+(* the relation between the in-memory heap a and the Redis sorted set b: same number of entries,
+   and either the same entries, or (both full) the same smallest count mu, the same entries above
+   mu, and at least one entry at mu *)
+Definition C08_topk_related (k : nat) (a b : list (bytes * N)) : Prop :=
+  length a = length b /\ (length a <= k)%nat /\
+  (Permutation.Permutation a b \/
+   (length a = k /\ exists mu, (forall e, In e a -> mu <= snd e) /\ (forall e, In e b -> mu <= snd e) /\
+      Permutation.Permutation (filter (fun e => mu <? snd e) a) (filter (fun e => mu <? snd e) b) /\
+      filter (fun e => snd e =? mu) a <> [])).
+Theorem C08_topk_related_is_J : forall k a b, C08_topk_related k a b <-> TopKPair.J k a b.
+Proof. intros k a b. unfold C08_topk_related, TopKPair.J, TopKPair.lower, TopKPair.abv, TopKPair.lvl. reflexivity. Qed.
+
+(* new structures with the same parameters (fresh, pairwise different Redis keys) are related *)
+Theorem C08_topk_new : forall (cpos : N -> N -> bytes -> list N) rows cols,
+  (forall x, length (cpos rows cols x) = N.to_nat rows) ->
+  (forall x p, In p (cpos rows cols x) -> p < cols) ->
+  forall s k er acc ertxt acctxt skey smeta hkey meta t s2 m0,
+  rtopk_new s k rows cols er acc ertxt acctxt skey smeta hkey meta = (Ok t, s2) ->
+  cms_new rows cols = Ok m0 ->
+  sget s hkey = None -> hkey <> smeta -> hkey <> meta ->
+  (forall r, row_key skey r <> hkey) -> (forall r, row_key skey r <> meta) ->
+  TopKPair.PI cpos rows cols (mkTopk k m0 []) s2 t [].
+Proof. exact TopKPair.pair_new. Qed.
+Print Assumptions C08_topk_new.
+
+(* EVERY history of inserts (counts >= 1, total below 2^53) keeps the two variants related: both
+   runs succeed, each variant keeps its own invariant (C04), the Redis sketch keeps representing
+   the in-memory one, and heap and sorted set stay related *)
+Theorem C08_topk_same_report_up_to_ties : forall (cpos : N -> N -> bytes -> list N) rows cols,
+  (forall x, length (cpos rows cols x) = N.to_nat rows) ->
+  (forall x p, In p (cpos rows cols x) -> p < cols) ->
+  0 < rows -> 0 < cols ->
+  forall ins mt s rt H,
+  TopKPair.PI cpos rows cols mt s rt H -> 1 <= t_k mt -> Forall (fun e => 1 <= snd e) ins -> CMSProofs.total (H ++ ins) < B53 ->
+  exists mt' rt' s', TopKInv.trun cpos mt ins = Ok mt' /\ TopKRedisInv.rtrun cpos s rt ins = (Ok rt', s') /\
+    TopKPair.PI cpos rows cols mt' s' rt' (H ++ ins) /\ t_k mt' = t_k mt.
+Proof. exact TopKPair.pair_history. Qed.
+Print Assumptions C08_topk_same_report_up_to_ties.
+
+(* related collections have the same number of entries and the same multiset of counts *)
+Theorem C08_topk_same_counts : forall k (a b : list (bytes * N)), (1 <= k)%nat -> TopKPair.J k a b ->
+  length a = length b /\ Permutation.Permutation (map snd a) (map snd b).
+Proof. exact TopKPair.J_counts. Qed.
+Print Assumptions C08_topk_same_counts.
+
+(* non-vacuity: a new Top-K of each kind (k = 3, 2x3 sketch, concrete fresh keys) are related *)
+Example C08_topk_premises_hold : exists t s2 m0, TopKPair.PI cpos1 2 3 (mkTopk 3 m0 []) s2 t [] /\ rt_k t = 3.
+Proof.
+  destruct (rtopk_new [] 3 2 3 0 0 [48] [48] k_a k_m k_b k_n) as [r s0] eqn:En.
+  assert (Hr : exists t, r = Ok t /\ rt_k t = 3) by (vm_compute in En; injection En as <- _; eauto).
+  destruct Hr as (t & -> & Hk).
+  destruct (cms_new 2 3) as [m0|e|p] eqn:Em; try (vm_compute in Em; discriminate).
+  assert (Hrow : forall key r k, length k = 4%nat -> length key = 4%nat -> row_key key r <> k).
+  { intros key r k Hk0 Hkey E. apply (f_equal (@length N)) in E. unfold row_key in E. rewrite app_length in E.
+    pose proof (RedisProofs.dec_nonempty r). destruct (dec r); [contradiction|]. cbn in E. lia. }
+  exists t, s0, m0. split; [|exact Hk].
+  apply (C08_topk_new cpos1 2 3 cpos1_len cpos1_lt [] 3 0 0 [48] [48] k_a k_m k_b k_n t s0 m0 En Em);
+    try reflexivity; try (vm_compute; discriminate); try (intros r; apply Hrow; reflexivity).
+Qed.
